@@ -14,3 +14,5 @@ import ExaModel.Props.C17
 #print axioms Exa.Props.C17.reload_failures_atomic
 #print axioms Exa.Props.C17.reload_removed_leaves_nothing
 #print axioms Exa.Props.C17.reload_readd_starts_empty
+#print axioms Exa.Props.C17.reload_keeps_unapplied_link
+#print axioms Exa.Props.C17.reload_link_is_previous
